@@ -1759,6 +1759,7 @@ fn escape_scalar_string(value: &[u8], start: usize, end: usize, json: &mut Strin
     let mut last_start = start;
     for i in start..end {
         // add backslash for escaped characters.
+        let unicode;
         let c = match value[i] {
             0x5C => "\\\\",
             0x22 => "\\\"",
@@ -1767,6 +1768,11 @@ fn escape_scalar_string(value: &[u8], start: usize, end: usize, json: &mut Strin
             0x0A => "\\n",
             0x0D => "\\r",
             0x09 => "\\t",
+            // other control characters are not allowed unescaped in a JSON string.
+            b @ 0x00..=0x1F => {
+                unicode = format!("\\u{:04x}", b);
+                unicode.as_str()
+            }
             _ => {
                 continue;
             }
